@@ -175,15 +175,32 @@ def known_crosstalk(w, obs, stmts, cont_ents, anchors: bool = False) -> bool:
         sites = crosstalk_sites(w, [], labels)
         btypes, _r = static_types(stmts)
         cont_types = set(gamedata.sk(t) for t in ITEMS + ["water"])
-        allowed = [cont_types]
-        for bn, ts in btypes.items():
-            allowed.append(set(gamedata.sk(t) for t in ts) if ts else cont_types)
+        # member types per bundle value: its static members, plus anything a container may hold if
+        # the bundle (transitively) contains an entity output
+        decls = {s[2]: s[3] for s in stmts if s[0] == "decl"}
+        from_container: dict = {}
+
+        def holds_output(e, depth=0) -> bool:
+            if not isinstance(e, list) or not e or depth > 12:
+                return False
+            if e[0] == "eout":
+                return True
+            if e[0] == "var" and e[1] in decls:
+                if e[1] not in from_container:
+                    from_container[e[1]] = False
+                    from_container[e[1]] = holds_output(decls[e[1]], depth + 1)
+                return from_container[e[1]]
+            return any(holds_output(x, depth + 1) for x in e[1:] if isinstance(x, list)) or any(
+                holds_output(y, depth + 1) for x in e[1:] if isinstance(x, list) and x and isinstance(x[0], list) for y in x)
+
         has_container = any("eout" in str(s) for s in stmts)
-        if not has_container:
-            allowed = [a for a in allowed if a is not cont_types] or [set()]
-        else:
-            # merges of container outputs with literal members may carry both kinds
-            allowed.append(cont_types | set().union(*[a for a in allowed]))
+        allowed = []
+        for bn, ts in btypes.items():
+            own = set(gamedata.sk(t) for t in ts)
+            allowed.append(own | cont_types if holds_output(["var", bn]) else own)
+        if has_container:
+            allowed.append(cont_types)
+        allowed = allowed or [set()]
         per_entity = None
         if anchors:
             # twin checks also compare bundle anchors: an anchor of a bundle name must only see
